@@ -401,6 +401,48 @@ func analyseWalk(gc *GCNF, k int, foreign map[string]lin) (walkInfo, []string, b
 			}
 		}
 	}
+	// a walk leads into the list: a pointer that enters at the tail end (position size-1-c) is advanced through prev, one that
+	// enters at the head end (position c) through next — the other way round it leaves the list with its first hop
+	sizeAtom := "(load (fa:size p:0))"
+	for _, s := range slots {
+		hop := ratio[s.j] * step
+		ownHop := false
+		for _, b := range backs {
+			if s.j < len(b.Exit.Args) {
+				bv := b.Exit.Args[s.j]
+				if bv.Op == "load" && len(bv.Args) == 1 && bv.Args[0].Op == "fa" && (bv.Args[0].Leaf == "next" || bv.Args[0].Leaf == "prev") && len(bv.Args[0].Args) == 1 && bv.Args[0].Args[0].String() == phi(s.j) {
+					ownHop = true
+				}
+			}
+		}
+		if !ownHop {
+			continue
+		}
+		for _, e := range entries {
+			if s.j >= len(e.Exit.Args) {
+				continue
+			}
+			v, isNil, ok := pos(e.Exit.Args[s.j])
+			if !ok || isNil {
+				continue
+			}
+			onlySize := true
+			for x := range v.c {
+				if x != sizeAtom {
+					onlySize = false
+				}
+			}
+			if !onlySize {
+				continue
+			}
+			switch {
+			case v.c[sizeAtom] == 1 && v.k <= 0 && v.k >= -2 && hop > 0:
+				bad = append(bad, fmt.Sprintf("loop %d: pointer %s enters at the tail end (position %s) and is advanced through next — it leaves the list with its first hop", k, phi(s.j), v.String()))
+			case len(v.c) == 0 && v.k >= 0 && v.k <= 2 && hop < 0:
+				bad = append(bad, fmt.Sprintf("loop %d: pointer %s enters at the head end (position %s) and is advanced through prev — it leaves the list with its first hop", k, phi(s.j), v.String()))
+			}
+		}
+	}
 	// the counter at loop exit, from the continuation condition of the back edges
 	var bound *lin
 	exitVal := lin{}
@@ -414,6 +456,24 @@ func analyseWalk(gc *GCNF, k int, foreign map[string]lin) (walkInfo, []string, b
 			var B lin
 			var ev lin
 			switch {
+			case a.Op == "==" && (isC(x) || isC(y)):
+				// the continuation condition itself (carried by every back edge), not a pick inside the round
+				all := true
+				for _, b2 := range backs {
+					has := false
+					for _, a2 := range b2.Guards {
+						if a2.String() == a.String() {
+							has = true
+						}
+					}
+					if !has {
+						all = false
+					}
+				}
+				if all {
+					bad = append(bad, fmt.Sprintf("loop %d: the walk continues while the counter *equals* its bound (%s): it stops at once everywhere else", k, trunc(noEpoch(a), 100)))
+				}
+				continue
 			case a.Op == "!=" && (isC(x) || isC(y)):
 				if isC(x) {
 					B = linOf(y)
@@ -421,6 +481,20 @@ func analyseWalk(gc *GCNF, k int, foreign map[string]lin) (walkInfo, []string, b
 					B = linOf(x)
 				}
 				ev = B
+				// the counter runs towards its bound: from 0 upwards, from size-1 downwards (an index within the list lies
+				// between the two); the other way round it never meets it
+				for _, e := range entries {
+					if cslot >= len(e.Exit.Args) {
+						continue
+					}
+					c0 := linOf(e.Exit.Args[cslot])
+					if len(c0.c) == 0 && c0.k == 0 && step < 0 {
+						bad = append(bad, fmt.Sprintf("loop %d: the counter starts at 0 and counts down — it never meets the index it is compared with", k))
+					}
+					if len(c0.c) == 1 && c0.c["(load (fa:size p:0))"] == 1 && c0.k == -1 && step > 0 {
+						bad = append(bad, fmt.Sprintf("loop %d: the counter starts at size-1 and counts up — it never meets the index it is compared with", k))
+					}
+				}
 			case a.Op == "<" && isC(x) && step > 0: // e < B
 				B = linOf(y)
 				ev = B
